@@ -29,6 +29,7 @@ RULE = ("sub-workloads on falsy data: single (C01 shapes, ordered list compare),
         "including 0, '', None, False and empty lists), concat (all lists empty; falsy elements; membership of falsy "
         "values), expr_domain (an attribute of a variable or the flatten of its collection given as the DOMAIN of another variable, let(T, domain=expr) and T(From(expr)), alone and joined), shared (one attribute expression object used by 2-3 queries as condition, comparison/membership operand and selected output, evaluated in random order). Non-trivial: the case contains at least one falsy value in value position that belongs to a row of the "
         "expected result or decides its absence. distinct by structural hash.")
+RULE += " Size cases (every tier): inner collections of 17-40 elements with every kind of falsy element at every position; equality joins on possibly-falsy attributes over 36-60 objects a side."
 LEVEL_TEXT = ("Reference-model monitoring on a data class the other checks exclude: same oracles, datasets saturated with falsy "
               "values, so that a truthiness test creeping into any value path (operand, output, argument) drops or adds rows.")
 LEVEL_NOTE = "Trusted: the oracle; a/b/d[k] stay ints so order comparisons remain defined; None/''/[] only appear where == and in are used."
